@@ -45,6 +45,14 @@ TITLES = {
     'C13b/2': ('BIGINT literal narrowed to INT by wrapping during overload resolution', 'an integer literal beyond the INT range next to an INT operand'),
     'C12b/1': ('DECIMAL * INTEGER casts the integer operand to the left operand\'s decimal type', 'decimal on the left with scale > 0, integer on the right, and a parent expression using the product'),
     'C12b/2': ('SUM merge of partial states uses an unchecked add', 'partial sums that are representable while the total is not (two partitions)'),
+    'C03b/1': ('LIMIT no longer clears the remaining offset after slicing the batch where the OFFSET ends', 'an OFFSET ending inside a batch and a LIMIT not satisfied within that batch (batch_size 16 or 7)'),
+    'C03b/2': ('nested-loop RIGHT join carries the right-row match flags into the next probe batch (MatchTracker::reset removed)', 'RIGHT JOIN executed by the nested-loop join with the probe side arriving in more than one batch'),
+    'C04b/1': ('nested-loop join LEFT-drain barrier checks the build counter instead of the probe counter', 'LEFT JOIN on a non-equality condition, at least 2 partitions, one probe partition finishing early'),
+    'C04b/2': ('ungrouped aggregate: the last distinct merger wakes the wrong waiter set', 'sum/count(DISTINCT ..) without GROUP BY on at least 2 partitions'),
+    'C07b/1': ('variance / stddev merge computes the cross term from the already updated mean', 'a group whose rows arrive through at least two partitions with different means'),
+    'C07b/2': ('grouped DISTINCT aggregates are fed with indexes relative to the DISTINCT list instead of absolute aggregate indexes', 'GROUP BY with a DISTINCT aggregate listed after a plain one'),
+    'C14b/1': ('DROP SCHEMA IF EXISTS short-circuits the removal', 'DROP SCHEMA IF EXISTS on an existing schema'),
+    'C14b/2': ('INSERT flushes the table after every batch', 'INSERT ... SELECT from the same table, or an INSERT whose source fails after the first batch'),
 }
 # how the machinery fared before / after strengthening (filled by hand from the session log)
 HISTORY = json.load(open('/verif/seeded/history.json')) if os.path.exists('/verif/seeded/history.json') else {}
